@@ -36,10 +36,54 @@ def gen_case(ctx, i):
     return cfg, lines, files, src
 
 
+def combined_oracle(cfg, lines, impl, rep, case):
+    """Two-parent combined diff, independent reading of the display rule: ordinary lines once, in order, prefix columns
+    kept; a conflict region (when conflict handling is on) as two comparisons, ancestor lines before ours, then ancestor
+    lines before theirs, nothing of an earlier region repeated."""
+    tab = cfg.d["tab"]
+    ex = lambda t: t.replace("\t", " " * tab) if tab else t
+    mark = (lambda k: {"minus": "-", "plus": "+"}[k]) if cfg.d["keepMarkers"] else (lambda k: "")
+    try:
+        start = next(i for i, l in enumerate(lines) if l.startswith("@@@")) + 1
+    except StopIteration:
+        return
+    exp, mode, bufs = [], None, None
+    for l in lines[start:]:
+        if cfg.d["mergeConflicts"] and mode is None and l.startswith("++<<<<<<<") and l[9:].strip():
+            mode, bufs = "ours", dict(ours=[], anc=[], theirs=[])
+        elif mode in ("ours",) and l.startswith("++|||||||") and l[9:].strip():
+            mode = "anc"
+        elif mode in ("ours", "anc") and l.startswith("++======="):
+            mode = "theirs"
+        elif mode and l.startswith("++>>>>>>>") and l[9:].strip():
+            for side in ("ours", "theirs"):
+                exp += [("minus", mark("minus") + ex(x[2:])) for x in bufs["anc"]]
+                exp += [("plus", mark("plus") + ex(x[2:])) for x in bufs[side]]
+            mode = None
+        elif mode:
+            bufs[mode].append(l)
+        else:
+            pre = l[:2]
+            first = next((ch for ch in pre if ch in "+-"), None)
+            kind = {"-": "minus", "+": "plus", None: "zero"}[first]
+            if first is None and pre.strip(" "):
+                return                              # not a line of a two-parent combined hunk: out of the oracle's domain
+            exp.append((kind, pre + ex(l[2:])))
+    if mode:
+        return                                      # unterminated region: out of the oracle's domain
+    norm = lambda rows: [(k, t.rstrip(" ")) for k, t in rows if t.strip(" ")]
+    got = norm([(k, t) for k, t in impl.rows if k in ("minus", "plus", "zero")])
+    exp = norm(exp)
+    if got != exp:
+        j = next((j for j, (a, b) in enumerate(zip(got, exp)) if a != b), min(len(got), len(exp)))
+        rep.violation("hunk-rows-differ:combined",
+                      f"combined diff rows differ at {j}: got {got[j] if j < len(got) else None!r}, want {exp[j] if j < len(exp) else None!r}", case)
+
+
 def oracle(cfg, lines, files, src, impl, rep, case):
     """Direct check of the C01 statement on the implementation's rows."""
     if src == "combined":
-        return  # covered by correspondence; expected rows of conflict regions: see c01 thorough
+        return combined_oracle(cfg, lines, impl, rep, case)
     rows = impl.rows
     hunk_rows = [(k, t) for k, t in rows if k in ("minus", "plus", "zero")]
     exp = []
